@@ -565,7 +565,6 @@ impl BufferTransformT for ASCII85Decode<'_> {
                 // crate's definition differs from PDF.
                 0x00 | 0x09 | 0x0A | 0x0C | 0x0D | 0x20 => continue,
 
-                // let the crate handle illegal characters.
                 c => stage.push(*c as char),
             }
         }
@@ -578,11 +577,36 @@ impl BufferTransformT for ASCII85Decode<'_> {
             },
         };
 
+        // The ascii85 crate rejects the 'z' shorthand for a group of
+        // four zero bytes (it falls through to its range check), so
+        // the groups are tracked here and a 'z' on a group boundary
+        // is expanded.  A leading "<~" is tolerated, as the crate
+        // does.
+        let mut digits = String::with_capacity(body.len());
+        let mut n = 0; // characters in the current group
+        for c in body.strip_prefix("<~").unwrap_or(body).chars() {
+            match c {
+                'z' if n == 0 => digits.push_str("!!!!!"),
+                '!' ..= 'u' => {
+                    digits.push(c);
+                    n = (n + 1) % 5;
+                },
+                // this includes a 'z' inside a group
+                c => {
+                    let err = ErrorKind::TransformError(format!(
+                        "ASCII85Decode: illegal char {:?} in input",
+                        c
+                    ));
+                    return Err(locate_value(err, loc.loc_start(), loc.loc_end()))
+                },
+            }
+        }
+
         let prev_hook = panic::take_hook();
 
         panic::set_hook(Box::new(|_info| {}));
 
-        let result = panic::catch_unwind(|| match ascii85::decode(body) {
+        let result = panic::catch_unwind(|| match ascii85::decode(&digits) {
             Ok(res) => Ok(ParseBuffer::new(res)),
             Err(e) => {
                 let err =
